@@ -40,7 +40,7 @@ def text_of(tree):
         return None
     if t == "bool":
         return tree["v"]
-    if t in ("int", "flt"):
+    if t in ("int", "flt", "f32"):
         return {"#": tree.get("s") or "?"}
     if t == "str":
         return jsonfam.to_text(tree["v"])
